@@ -478,6 +478,64 @@ func runC06(c *Ctx) {
 			st = report.Violated
 		}
 		R.Add("S.answered", shortFn(dr)+" / no serial and no write unless HasReply()", c.P.RelPos(dr.Pos()), st, d)
+		// … and with HasReply() true the reply is written whatever its body looks like: from the guard, every way to a return
+		// runs over the socket write, except over the error edge of ReplyBody
+		if guard != nil {
+			isReplyBodyErr := func(v ssa.Value) bool {
+				ex, isEx := v.(*ssa.Extract)
+				if !isEx {
+					return false
+				}
+				n, _ := callMethodName(ex.Tuple)
+				return n == "ReplyBody" && ex.Index == 1
+			}
+			bad := ""
+			seen := map[*ssa.BasicBlock]bool{guard: true}
+			work := []*ssa.BasicBlock{guard}
+			for len(work) > 0 && bad == "" {
+				b := work[len(work)-1]
+				work = work[:len(work)-1]
+				written := false
+				for _, ins := range b.Instrs {
+					if cw.is(ins) {
+						written = true
+					}
+				}
+				if written {
+					continue
+				}
+				last := b.Instrs[len(b.Instrs)-1]
+				if ret, isR := last.(*ssa.Return); isR {
+					bad = c.P.RelPos(ret.Pos())
+					if bad == "" {
+						bad = "the end of the function"
+					}
+					continue
+				}
+				skip := -1
+				if iff, isIf := last.(*ssa.If); isIf {
+					if bo, isBO := iff.Cond.(*ssa.BinOp); isBO && (isReplyBodyErr(bo.X) || isReplyBodyErr(bo.Y)) {
+						switch bo.Op {
+						case token.NEQ:
+							skip = 0
+						case token.EQL:
+							skip = 1
+						}
+					}
+				}
+				for i, sb := range b.Succs {
+					if i != skip && !seen[sb] {
+						seen[sb] = true
+						work = append(work, sb)
+					}
+				}
+			}
+			st, d := report.Discharged, ""
+			if bad != "" {
+				st, d = report.Violated, "with HasReply() true and ReplyBody successful, the return at "+bad+" is reached without writing a reply: some requests of a reply-bearing type (an empty reply body is the standard's reply to 0x1003) are never answered"
+			}
+			R.Add("S.answered", shortFn(dr)+" / with HasReply() true every successful ReplyBody is written", c.P.RelPos(dr.Pos()), st, d)
+		}
 	}
 	if wf := c.P.Method("service", "connection", "write"); wf != nil {
 		ok, d := false, "the writer never calls the reply function"
@@ -510,7 +568,7 @@ func runC06(c *Ctx) {
 		}
 		R.Add("S.answered", shortFn(wf)+" / every complete message reaches the reply function", c.P.RelPos(wf.Pos()), st, d)
 	}
-	R.Require("S.answered", 2, "")
+	R.Require("S.answered", 3, "")
 	// "complete" itself: a fragment - also the only fragment of a 1-packet transfer - is not complete, the reassembled
 	// message is: otherwise one request is answered (and reported to the callbacks) twice
 	c.hasCompleteContract()
